@@ -126,11 +126,12 @@ InDomain(op, x) ==
     [] op \in {"sinh", "cosh"} -> AbsLeInt(x, 88)
     [] OTHER -> TRUE
 
-V15(op, N, ES, a, b2, r, P) ==
+\* judged against an explicit bound k (V15 uses the stated one; the diagnosis of a failure re-judges with k + 1, k + 2, ...
+\* to report by how much the bound is exceeded)
+V15K(op, N, ES, a, b2, r, P, k) ==
   LET nar == IsNaR(N, a)
       x == IF nar THEN DyZero ELSE Val(N, ES, a)
       pos == ~nar /\ ~DyIsZero(x) /\ ~x.neg
-      k == Bound(op)
   IN
   IF op \in {"hypot", "powf", "atan2"} THEN
      LET nar2 == IsNaR(N, b2)
@@ -185,6 +186,8 @@ V15(op, N, ES, a, b2, r, P) ==
                       ELSE Inv(N, ES, r, k, LAMBDA b : AtanC(x, b, P))
     [] op = "cbrt" -> IF IsNaR(N, r) THEN "wrong"
                       ELSE Verdict(N, ES, r, k, DyIsZero(x), LAMBDA b : ExactC(x, DyMul(b, DyMul(b, b))))
+
+V15(op, N, ES, a, b2, r, P) == V15K(op, N, ES, a, b2, r, P, Bound(op))
 
 -----------------------------------------------------------------------------
 (* The mathematical constants (MathConsts / FloatConst): each must be the correct rounding of *)
